@@ -123,7 +123,8 @@ func (_this *Context) IgnoreNext() {
 func (_this *Context) BeginRecordType(id []byte) {
 	_this.StackBuilder(generateRecordTypeBuilder(_this))
 	_this.recordTypeName = string(id)
-	_this.recordType = _this.recordType[:0]
+	// Start a new key list: the previous one now belongs to the record type it was stored under
+	_this.recordType = nil
 }
 
 func (_this *Context) BeginRecord(id []byte) {
